@@ -202,6 +202,8 @@ func checkC11(p *Prog, res *Result, tier string) {
 	res.rule("C11-R16", "the bound test of every adapter's iterator excludes the end key and admits exactly one side of it, for every value of the direction flag (tabulated over the three outcomes of bytes.Compare and the iterator's boolean fields)", 5)
 	res.rule("C11-R17", "the TiKV adapter starts a backward iteration at the immediate successor of start (start followed by one zero byte): the engine's reverse iterator excludes its seek key, and any larger successor admits longer keys that begin with start", 1)
 	res.rule("C11-R18", "the in-process engine decides 'no such key' by the nil result of its lookup, never by the length of the value (a stored value may be empty; the other engines decide by their not-found error)", 3)
+	res.rule("C11-R19", "the snapshots of the TiKV adapter stay at snapshot isolation: no SetIsolationLevel with another level (a read-committed scan passes over the locks of transactions whose commit timestamp is at or below the snapshot)", 1)
+	res.rule("C11-R20", "the in-process engine's Commit is all-or-nothing: once it has applied a staged operation to the store no path returns an error", 2)
 	res.rule("C11-R9", "deleting a key that is not there is not an error in any adapter: Del never reports the ErrKeyNotFound sentinel (the compaction deletes a record it has already deleted, and treats any error as a failed delete)", 3)
 	res.rule("C11-R10", "an adapter that advertises native TTL hands the ttl of every write form (Put, PutIfNotExist, CAS) to the engine (or records it with the staged operation)", 6)
 	res.rule("C11-R8", "the in-process engine's iterator yields snapshot copies: live skip-list elements are dereferenced only under the store lock (C19-R3)", 2)
@@ -432,6 +434,8 @@ func checkC11(p *Prog, res *Result, tier string) {
 	checkIteratorBoundTest(p, res, "C11-R16")
 	checkBackwardSeekKey(p, r, res, "C11-R17")
 	checkAbsentIsNil(p, res, "C11-R18")
+	checkSnapshotIsolationKept(p, res, "C11-R19")
+	checkCommitNoErrorAfterApply(p, r, res, "C11-R20")
 	checkAdaptersReportCancellation(p, res, "C11-R11")
 	checkAdapterErrorPreservation(p, r, res, "C11-R11")
 	checkNativeTTLHonoured(p, r, res, "C11-R10")
@@ -1642,7 +1646,7 @@ func checkC12(p *Prog, res *Result, tier string) {
 
 	sub := p.subResult("C11", tier)
 	for _, o := range sub.Obls {
-		if o.Rule == "C11-R1" || o.Rule == "C11-R2" || o.Rule == "C11-R5" || o.Rule == "C11-R6" || o.Rule == "C11-R7" || o.Rule == "C11-R9" || o.Rule == "C11-R12" || o.Rule == "C11-R13" || o.Rule == "C11-R14" || o.Rule == "C11-R16" || o.Rule == "C11-R18" {
+		if o.Rule == "C11-R1" || o.Rule == "C11-R2" || o.Rule == "C11-R5" || o.Rule == "C11-R6" || o.Rule == "C11-R7" || o.Rule == "C11-R9" || o.Rule == "C11-R12" || o.Rule == "C11-R13" || o.Rule == "C11-R14" || o.Rule == "C11-R16" || o.Rule == "C11-R18" || o.Rule == "C11-R19" || o.Rule == "C11-R20" {
 			res.add("C12-R0", o.Rule+" "+o.Construct, o.Status, o.Pos, o.Detail)
 		}
 	}
